@@ -17,3 +17,26 @@ def words (s : String) : List String :=
   (s.trimAscii.toString.splitOn " ").filter (· != "")
 
 end Hd
+
+namespace Hd
+
+def hexVal (c : Char) : Nat :=
+  if '0' ≤ c ∧ c ≤ '9' then c.toNat - '0'.toNat
+  else if 'a' ≤ c ∧ c ≤ 'f' then c.toNat - 'a'.toNat + 10
+  else if 'A' ≤ c ∧ c ≤ 'F' then c.toNat - 'A'.toNat + 10
+  else 0
+
+def parseHexChars : List Char → List Nat
+  | a :: b :: rest => (hexVal a * 16 + hexVal b) :: parseHexChars rest
+  | _ => []
+
+/-- `"0aff"` ↦ `[10, 255]`; `"-"` ↦ `[]`. -/
+def parseHex (s : String) : List Nat := if s == "-" then [] else parseHexChars s.toList
+
+def hexDigit (n : Nat) : Char :=
+  if n < 10 then Char.ofNat (n + '0'.toNat) else Char.ofNat (n - 10 + 'a'.toNat)
+
+def showHex (l : List Nat) : String :=
+  if l.isEmpty then "-" else String.ofList (l.flatMap fun b => [hexDigit (b / 16 % 16), hexDigit (b % 16)])
+
+end Hd
